@@ -1289,6 +1289,7 @@ int32_t jls_core_repair_fsr(struct jls_core_s * self, uint16_t signal_id) {
 
     int64_t offset_index_next = 0;
     int64_t offset = offsets[level];
+    int64_t sample_id_expect = INT64_MIN;  // of the next data chunk, when known
     struct jls_core_chunk_s index_head;
 
     jls_core_fsr_summary_level_alloc(signal_info->track_fsr, level);
@@ -1355,7 +1356,15 @@ int32_t jls_core_repair_fsr(struct jls_core_s * self, uint16_t signal_id) {
             skip_summary = true;
             --level;
             if (r->header.entry_count > 0) {
-                offset = r->offsets[r->header.entry_count - 1];
+                offset = 0;  // entries of omitted blocks are 0: descend to the last block that was stored
+                for (uint32_t k = r->header.entry_count; (k > 0) && !offset; --k) {
+                    offset = r->offsets[k - 1];
+                }
+                if (0 == level) {
+                    // the data that this index chunk covers ends here, stored or omitted
+                    sample_id_expect = r->header.timestamp
+                        + ((int64_t) r->header.entry_count) * signal_info->signal_def.samples_per_data;
+                }
                 lvl->index->header.entry_count = 0;
                 lvl->summary->header.entry_count = 0;
                 if (0 != jls_raw_chunk_seek(self->raw, offset)) {
@@ -1378,7 +1387,6 @@ int32_t jls_core_repair_fsr(struct jls_core_s * self, uint16_t signal_id) {
 
     // update level 0 (data)
     jls_core_fsr_sample_buffer_alloc(signal_info->track_fsr);
-    int64_t sample_id_expect = INT64_MIN;
     while (offset) {
         if (jls_raw_chunk_seek(self->raw, offset) || jls_core_rd_chunk(self)) {
             break;
@@ -1396,14 +1404,20 @@ int32_t jls_core_repair_fsr(struct jls_core_s * self, uint16_t signal_id) {
             break;
         }
         int64_t sample_id = ((struct jls_fsr_data_s *) self->buf->start)->header.timestamp;
-        if ((sample_id_expect != INT64_MIN) && (sample_id != sample_id_expect)) {
+        if (skip_summary) {
+            // this chunk is already indexed: sample_id_expect stays as the index gave it
+            if (sample_id_expect == INT64_MIN) {
+                sample_id_expect = sample_id + signal_info->signal_def.samples_per_data;
+            }
+        } else if ((sample_id_expect != INT64_MIN) && (sample_id != sample_id_expect)) {
             // Blocks omitted by the writer lie between this chunk and the previous one.  Their
             // summaries were never stored, so they cannot be indexed: the recovered signal ends here.
             JLS_LOGW("repair_fsr signal_id %d: omitted data before sample_id %" PRIi64 ".  Truncating.",
                      (int) signal_id, sample_id);
             break;
+        } else {
+            sample_id_expect = sample_id + signal_info->signal_def.samples_per_data;
         }
-        sample_id_expect = sample_id + signal_info->signal_def.samples_per_data;
         memcpy(signal_info->track_fsr->data, self->buf->start, self->buf->length);
         JLS_LOGI("repair_fsr signal_id %d, level %d, offset %" PRIi64 " sample_id %" PRIi64 " to %" PRIi64 " data[0]=%f",
                  (int) signal_id, (int) level, offset,
